@@ -37,6 +37,10 @@ CHECKS = {
         technique='property-based testing: generated nested structures with aliasing, independent reference walk as oracle for path soundness/completeness, canonical-form round trip for identity traversals, small history scenarios for registries',
         text='Generated structures (lists, tuples, dicts, defaultdicts, named tuples, Buildables with positional/*args/keyword arguments, tuples of literals, Box nodes with flatten temporaries, aliasing) are walked by an independent reference; iterate (memoized/un-memoized/memoize_internables=False), follow_path, collect_paths_by_id (daglish + legacy), State.get_all_paths and five identity rebuilds are compared with it; cyclic inputs must raise ValueError; a node type registered after a fallback registry already looked it up must be traversed afterwards.',
         note='Trusted: reference walk in harness/canon.py + props/c08.py; legacy traversals judged only on the container types they document.'),
+    'C09': dict(
+        technique='property-based round-trip testing plus policy fault injection: generated values -> dump_json -> load_json compared by canonical form; mutated documents loaded under recording policies with a spy on symbol resolution',
+        text='Hypothesis generates DAGs with every serializable leaf/container type (huge ints, special floats, surrogates, escape-like bytes, enums, slices, NO_VALUE, sets, named tuples, defaultdicts, arbitrary hashable dict keys, registered constant, dict-based object, tags, unset parameters, sharing); dump must raise or produce JSON whose load has the same canonical form and re-dumps identically, without invoking any callable. Policy cases mutate pyrefs of real documents to canary/forbidden symbols and load them under allow-list / deny-all / deny-by-value policies while a spy checks that every resolved symbol was approved by both policy questions during that resolution.',
+        note='Trusted: harness/canon.py, the import_symbol spy and RecordingPolicy in props/c09.py, json.loads as the reference JSON parser.'),
 }
 
 PENDING = {}
